@@ -132,6 +132,16 @@ SPECS = {
                      "or beyond the path; after a path commit no committer path key may occur in the previous tree; a leaf private key "
                      "replaced by the member's own update/commit must not occur in its serialised state; distinct = distinct "
                      "(role, path position, key present, node present, LCA level) cells"),
+    "C10": dict(shards=(8, 32), level="exploration",
+                floors={"quick": {"soups": 250, "commit_built": 200, "receiver_accepted": 700, "build_refused_as_expected": 80,
+                                  "by_ref_offenders_dropped": 80, "insider_refused": 800, "unused_sets_compared": 600,
+                                  "missing_proposal_refused:ProposalNotFound": 20, "commit_after_refused_build_ok": 60}},
+                show=("histories", "soups", "commit_built", "receiver_accepted", "build_refused", "by_ref_offenders", "insider_refused",
+                      "unused_sets", "missing_prop", "reinit_commit", "applied:", "proposer_refused", "offender_refused", "commit_after"),
+                rule="one evaluation = one soup (random multiset of by-reference and by-value proposals, valid and offending, one committer), "
+                     "one receiver decision about its commit, or one receiver decision about an insider commit carrying an offender; distinct = "
+                     "distinct (build class, number of by-reference offenders, cache size, by-value count, timed) / (receiver lacks a "
+                     "referenced proposal, applied count, same cache) / (rule, honest content) classes"),
     "C11": dict(shards=(8, 32), level="exploration",
                 floors={"quick": {"winner_orders_resolved": 300, "stale_commit_refused": 2000, "stale_detached_refused": 150,
                                   "second_build_refused": 150, "read_with_pending_ok": 300, "agreement_checked": 1000,
